@@ -108,9 +108,13 @@ func runC13Stream(c c13Stream, rec *stat.Rec) *stat.Failure {
 			chunk := data[pos : pos+n]
 			pos += n
 			wn, err := x.Write(chunk)
-			_ = wn // the returned count is not part of the property (it is a hash.Hash-style writer)
 			if err != nil {
 				return stat.Failf("C13/write-error", "Write returned %v", err)
+			}
+			// "incrementally over any split of the input into writes": a caller that splits its input goes by the count Write
+			// returns (p = p[n:]); a short count with a nil error makes it hash bytes twice
+			if wn != len(chunk) {
+				return stat.Failf("C13/write-returns-a-short-count", "Write of %d bytes with %d bytes buffered returned (%d, nil); all %d bytes were absorbed", len(chunk), buffered, wn, len(chunk))
 			}
 			m.Write(chunk)
 			rec.Class(fmt.Sprintf("stream/buffered=%d,next=%s", buffered, lenClass(n)))
